@@ -1,5 +1,5 @@
 (* C13 -- results are local: a pixel depends on its neighbourhood, not on its position.
-   Statements only; every proof is `exact <lemma>` (Proofs/LocalP.v, LocalCostP.v, LocalStepsP.v).
+   Statements only; every proof is `exact <lemma>` (Proofs/LocalP.v, LocalCostP.v, LocalCbcaP.v, LocalStepsP.v).
 
    Reading guide.  A raster is a [frame] (extents + total function); a step is an [op]: what it writes
    at a pixel given the whole input raster.  [local H f D M] (Spec/Local.v): for ANY two rasters F, G
@@ -8,17 +8,23 @@
    (H F r c: side condition on the first run).  Radii: [rho] rows up and down, [lam] columns to the
    left, [mu] columns to the right.  Nothing relates the two positions nor the two sizes: crops with
    any offset (odd, even), tiles, translations are all instances ([C13_crop_invariance]).
+   [local2 img_of H f DS DI M] is the same with two data cones: the rasters hold the same STATES (images and
+   products of the earlier steps) on the cones of radii DS and the same IMAGES (radiometry, mask values) on the
+   cones of radii DI.  State cones add under composition, image cones do not (max): the disparity interval is
+   counted once for the matching cost / cbca and once more for cross-checking, as the property says.
 
-   Covered at MODEL level (the models of C02/C03/C04/C06/C07/C10, unchanged): matching cost sad / ssd
-   with its validity mask (criteria.py), winner-takes-all, refinement vfit / quadratic, median filter,
-   bilateral filter (for every pair of Gaussian kernels), cross-checking (left and right products), and
-   every pipeline made of them, any length, any order.
-   Covered at SPEC level only: census and zncc costs.  Not covered by a theorem (metamorphic runs
-   only): cbca, vertical flip.  Hence the name [C13_pipeline_local_partial]. *)
+   Covered at MODEL level (the models of C02/C03/C04/C06/C07/C10/C11, unchanged): matching cost sad / ssd /
+   census / zncc with its validity mask (criteria.py), cbca aggregation, winner-takes-all, refinement vfit /
+   quadratic, median filter, bilateral filter (for every pair of Gaussian kernels), cross-checking (left and
+   right products), and every pipeline made of them, any length, any order: [C13_pipeline_local].
+   zncc: the model's cell is the exact integer triple (cov, varL, varR); the cost is [zq] of the triple, for
+   EVERY function zq (the float evaluation of cov / sqrt(varL varR) is data, like the bilateral kernels).
+   Not covered by a theorem (metamorphic runs only): the vertical flip. *)
 From Coq Require Import ZArith QArith List Bool.
 From Pandora Require Import Spec.Local Spec.Cost Model.MatchingCost Model.Local.
 From Pandora Require Import Proofs.LocalP Proofs.LocalCostP Proofs.LocalStepsP Proofs.MatchingCostP.
 From Pandora Require Model.Criteria Model.Refine Model.CrossCheck Gen.Constants Gen.Flags Gen.RefineConsts.
+From Pandora Require Model.Cbca Spec.Cbca Proofs.CbcaP Proofs.LocalCbcaP.
 Import ListNotations.
 Open Scope Z_scope.
 
@@ -36,9 +42,26 @@ Theorem C13_local_pointwise : forall A B (h : A -> B), local no_side (fun F r c 
 Proof. exact local_pointwise. Qed.
 
 (* every pipeline (any length) of local steps is local, with the summed radii *)
-Theorem C13_pipeline_local : forall A (H : side A) (steps : list (op A A)) D M,
+Theorem C13_chain_local : forall A (H : side A) (steps : list (op A A)) D M,
   chain H steps D M -> local H (run_pipe steps) D M.
 Proof. exact pipeline_local. Qed.
+
+(* two data cones: when f does not rewrite the input part [pi] of the states, the state cones add and the input
+   cone of "f then g" is the larger of g's input cone and g's state cone plus f's input cone *)
+Theorem C13_local2_compose : forall A I C (pi : A -> I) (Hf Hg : side A) (f : op A A) (g : op A C) DSf DIf Mf DSg DIg Mg,
+  rad_wf DSf -> rad_wf DIf -> rad_wf Mf -> rad_wf DSg -> rad_wf DIg -> rad_wf Mg -> keeps pi f ->
+  local2 pi Hf f DSf DIf Mf -> local2 pi Hg g DSg DIg Mg ->
+  local2 pi (side_comp Hf f Hg DSg) (comp g f) (radd DSg DSf) (rmax DIg (radd DSg DIf)) (rmax Mg (radd DSg Mf)).
+Proof. exact local2_compose. Qed.
+
+Theorem C13_chain2_local : forall A I (pi : A -> I) (H : side A) (steps : list (op A A)) DS DI M,
+  chain2 pi H steps DS DI M -> local2 pi H (run_pipe steps) DS DI M.
+Proof. exact pipeline_local2. Qed.
+
+(* a step local in the two-cone sense is a function of the data of ONE cone, the larger of the two *)
+Theorem C13_local2_one_cone : forall A I B (pi : A -> I) (H : side A) (f : op A B) DS DI M,
+  local2 pi H f DS DI M -> local H f (rmax DS DI) M.
+Proof. exact local2_local. Qed.
 
 (* processing ANY crop that contains the cone of a pixel gives the value the whole raster gives,
    whatever the crop's offset (r0, c0) and size (h, w) *)
@@ -107,6 +130,38 @@ Theorem C13_ssd_model_local : forall x y dmin dmax r c r' c' k,
   ssd_volume x dmin dmax r c k = ssd_volume y dmin dmax r' c' k.
 Proof. exact ssd_model_local. Qed.
 
+(* census (window 1, 3 or 5; the code accepts 3 and 5), through C02_census_model_eq_spec *)
+Theorem C13_census_model_local : forall x y dmin dmax r c r' c' k,
+  wf_cfg x -> i_w y = i_w x /\ i_s y = i_s x /\ i_vp y = i_vp x /\ i_nd y = i_nd x ->
+  0 <= r < i_ny x -> 0 <= c < i_nx x -> 0 <= r' < i_ny y -> 0 <= c' < i_nx y ->
+  0 <= k < nb_disp (i_s x) dmin dmax ->
+  (forall a b, - offset (i_w x) <= a <= offset (i_w x) -> - offset (i_w x) <= b <= offset (i_w x) ->
+     inp_alike_left x y r c r' c' a b) ->
+  (forall a b, - offset (i_w x) <= a <= offset (i_w x) ->
+     - offset (i_w x) + dfloor (i_s x) (disp_scaled (i_s x) dmin k) <= b
+       <= offset (i_w x) + dceil (i_s x) (disp_scaled (i_s x) dmin k) ->
+     inp_alike_right x y r c r' c' a b) ->
+  i_gmin x r c = i_gmin y r' c' /\ i_gmax x r c = i_gmax y r' c' ->
+  i_w x * i_w x <= 32 ->
+  census_volume x dmin dmax r c k = census_volume y dmin dmax r' c' k.
+Proof. exact census_model_local. Qed.
+
+(* zncc, through C02_zncc_model_eq_spec: the two inputs hold the SAME integer triple (cov, varL, varR) (the three
+   moments of the spec are local, and the scaling of the triple is injective), NaN included *)
+Theorem C13_zncc_model_local : forall x y dmin dmax r c r' c' k,
+  wf_cfg x -> i_w y = i_w x /\ i_s y = i_s x /\ i_vp y = i_vp x /\ i_nd y = i_nd x ->
+  0 <= r < i_ny x -> 0 <= c < i_nx x -> 0 <= r' < i_ny y -> 0 <= c' < i_nx y ->
+  0 <= k < nb_disp (i_s x) dmin dmax ->
+  (forall a b, - offset (i_w x) <= a <= offset (i_w x) -> - offset (i_w x) <= b <= offset (i_w x) ->
+     inp_alike_left x y r c r' c' a b) ->
+  (forall a b, - offset (i_w x) <= a <= offset (i_w x) ->
+     - offset (i_w x) + dfloor (i_s x) (disp_scaled (i_s x) dmin k) <= b
+       <= offset (i_w x) + dceil (i_s x) (disp_scaled (i_s x) dmin k) ->
+     inp_alike_right x y r c r' c' a b) ->
+  i_gmin x r c = i_gmin y r' c' /\ i_gmax x r c = i_gmax y r' c' ->
+  zncc_volume x dmin dmax r c k = zncc_volume y dmin dmax r' c' k.
+Proof. exact zncc_model_local. Qed.
+
 (* ---------------------------------------------------------------- criteria.py: the validity mask of the
    matching-cost step.  Bits 1 / 2 of validity_mask and the border flag depend on the position only
    within offset + disparity interval of the image sides; elsewhere the flag is a function of the mask
@@ -131,12 +186,80 @@ Theorem C13_criteria_local_interior : forall (E : Criteria.env) (L L' : Criteria
   Criteria.after_mc E L an r c = Criteria.after_mc E L' an' r' c'.
 Proof. exact after_mc_local. Qed.
 
+(* ---------------------------------------------------------------- cbca: the SPEC of C11 (Spec/Cbca.v) *)
+
+(* an arm has at most max(cbca_distance - 1, 1) pixels, and is a function of the pixels that close along its ray *)
+Theorem C13_cbca_arm_reach : forall I I' dist inten d r c r' c',
+  0 <= Spec.Cbca.spec_arm I dist inten d r c <= LocalCbcaP.arm_max dist
+  /\ (Spec.Cbca.px I r c = Spec.Cbca.px I' r' c' ->
+      (forall j, 1 <= j <= LocalCbcaP.arm_max dist ->
+         Spec.Cbca.px I (r + j * Spec.Cbca.drow d) (c + j * Spec.Cbca.dcol d)
+         = Spec.Cbca.px I' (r' + j * Spec.Cbca.drow d) (c' + j * Spec.Cbca.dcol d)) ->
+      Spec.Cbca.spec_arm I dist inten d r c = Spec.Cbca.spec_arm I' dist inten d r' c').
+Proof.
+  intros I I' dist inten d r c r' c'. split; [exact (LocalCbcaP.spec_arm_le I dist inten d r c)|].
+  exact (LocalCbcaP.spec_arm_local I I' dist inten d r c r' c').
+Qed.
+
+(* the aggregated cost of a pixel at a disparity (mean over the combined support region: vertical arm, then the
+   horizontal arms of each arm pixel, each arm the shorter of the left-image arm and of the right-image arm at
+   column c + shift) is a function of the (2A+1) x (2A+1) squares, A = max(cbca_distance - 1, 1), of the left
+   filtered image around the pixel, of the right filtered image around column c + shift, and of the costs.
+   [px] is "the value, or nothing when outside the image or masked": no hypothesis that the squares are inside
+   the images; sizes and positions are unrelated.  Every cbca_distance, every cbca_intensity. *)
+Theorem C13_cbca_spec_local : forall IL IR IL' IR' dist inten shift cost cost' r c r' c',
+  let A := LocalCbcaP.arm_max dist in
+  (forall a b, - A <= a <= A -> - A <= b <= A -> Spec.Cbca.px IL (r + a) (c + b) = Spec.Cbca.px IL' (r' + a) (c' + b)) ->
+  (forall a b, - A <= a <= A -> - A <= b <= A ->
+     Spec.Cbca.px IR (r + a) (c + shift + b) = Spec.Cbca.px IR' (r' + a) (c' + shift + b)) ->
+  (forall a b, - A <= a <= A -> - A <= b <= A -> cost (r + a) (c + b) = cost' (r' + a) (c' + b)) ->
+  Spec.Cbca.agg_spec IL IR dist inten shift cost r c = Spec.Cbca.agg_spec IL' IR' dist inten shift cost' r' c'.
+Proof. exact LocalCbcaP.agg_spec_local. Qed.
+
+(* ... and so is the aggregated volume of the MODEL of cbca.py (integral images, sentinel column / row, arm tables,
+   3x3 median pre-filter, masks, shifted right images), through C11_model_eq_spec: two inputs (any sizes), two
+   pixels whose cones are inside the images (g = A + max(1, window offset) from the sides; the correspondent
+   columns c + floor d (+ 1 for a shifted right image) too), same parameters, same disparity of the two planes,
+   images and masks alike on the squares of radius A + 1 (left: around the pixel; right: around column
+   c + floor d), input costs alike on the square of radius A => same aggregated cost, NaN included *)
+Theorem C13_cbca_model_local : forall (x y : Cbca.cbca_in) k k' r c r' c',
+  Cbca.i_off y = Cbca.i_off x /\ Cbca.i_subpix y = Cbca.i_subpix x /\ Cbca.i_dist y = Cbca.i_dist x
+  /\ Cbca.i_inten y = Cbca.i_inten x /\ Cbca.i_validL y = Cbca.i_validL x /\ Cbca.i_validR y = Cbca.i_validR x ->
+  1 <= Cbca.i_dist x -> 1 <= Cbca.i_subpix x -> 0 <= Cbca.i_off x ->
+  0 <= k < CbcaP.n_disp x -> 0 <= k' < CbcaP.n_disp y -> CbcaP.nth_disp y k' = CbcaP.nth_disp x k ->
+  let A := LocalCbcaP.arm_max (Cbca.i_dist x) in
+  let sh := Spec.Cbca.plane_shift (CbcaP.nth_disp x k) in
+  let s := Spec.Cbca.plane_image (Cbca.i_subpix x) (CbcaP.nth_disp x k) in
+  let e := if s =? 0 then 0 else 1 in
+  let g := A + Z.max 1 (Cbca.i_off x) in
+  (g <= r /\ r + g < Cbca.i_nr x /\ g <= c /\ c + g < Cbca.i_nc x /\ g <= c + sh /\ c + sh + e + g < Cbca.i_nc x) ->
+  (g <= r' /\ r' + g < Cbca.i_nr y /\ g <= c' /\ c' + g < Cbca.i_nc y /\ g <= c' + sh /\ c' + sh + e + g < Cbca.i_nc y) ->
+  (forall a b, - (A + 1) <= a <= A + 1 -> - (A + 1) <= b <= A + 1 ->
+     Cbca.i_imL x (r + a) (c + b) = Cbca.i_imL y (r' + a) (c' + b)
+     /\ LocalCbcaP.omask_agree (Cbca.i_mskL x) (Cbca.i_mskL y) (r + a) (c + b) (r' + a) (c' + b)) ->
+  (forall a b, - (A + 1) <= a <= A + 1 -> - (A + 1) <= b <= A + 1 ->
+     Cbca.i_imR x s (r + a) (c + sh + b) = Cbca.i_imR y s (r' + a) (c' + sh + b)) ->
+  (forall a b, - (A + 1) <= a <= A + 1 -> - (A + 1) <= b <= A + 1 + e ->
+     LocalCbcaP.omask_agree (Cbca.i_mskR x) (Cbca.i_mskR y) (r + a) (c + sh + b) (r' + a) (c' + sh + b)) ->
+  (forall a b, - A <= a <= A -> - A <= b <= A -> Cbca.i_cv x k (r + a) (c + b) = Cbca.i_cv y k' (r' + a) (c' + b)) ->
+  CbcaP.out_at x k r c = CbcaP.out_at y k' r' c'.
+Proof. exact LocalCbcaP.cbca_model_local. Qed.
+
 (* ---------------------------------------------------------------- the steps, on rasters of pixel states *)
 
-(* matching cost (sad / ssd), left and right cost curves and validity masks:
-   rows window/2, columns window/2 + max(|dmin|, |dmax|, 0) on both sides *)
-Theorem C13_mc_step_local : forall ssd E G, cfg_wf G -> local no_side (mc_step ssd E G) (rad_mc G) (rad_mc G).
+(* matching cost (sad / ssd / census / zncc), left and right cost curves and validity masks: reads the IMAGES only,
+   rows window/2, columns window/2 + max(|dmin|, |dmax|, 0) on both sides (of the state of the pixel itself it
+   keeps the disparities) *)
+Theorem C13_mc_step_local : forall m E G, cfg_wf G -> meas_wf G m ->
+  local2 img_of no_side (mc_step m E G) rad0 (rad_mc G) (rad_mc G).
 Proof. exact mc_step_local. Qed.
+
+(* cbca (left and right cost volumes, every cbca_distance >= 1, every cbca_intensity): costs within
+   A = max(cbca_distance - 1, 1) rows and columns; images within A + 1 rows and A + 1 + disparity span columns;
+   margin A + max(1, window offset) (+ span) *)
+Theorem C13_cbca_step_local : forall dist inten G, cfg_wf G -> 1 <= dist ->
+  local2 img_of no_side (cbca_step dist inten G) (rad_cbca_S dist) (rad_cbca_I G dist) (rad_cbca_M G dist).
+Proof. exact cbca_step_local. Qed.
 
 (* winner-takes-all (every block size B >= 1, min or max, any invalid_disparity): radius 0 *)
 Theorem C13_wta_step_local : forall mx B invalid G, 1 <= B -> local no_side (wta_step mx B invalid G) rad0 rad0.
@@ -164,29 +287,32 @@ Theorem C13_xcheck_step_local : forall thr G, cfg_wf G ->
   local (fun F r c => px_ok G (f_at F r c)) (xcheck_step thr G) (rad_xcheck G) (rad_xcheck_margin G).
 Proof. exact xcheck_step_local. Qed.
 
+(* no step rewrites the images *)
+Theorem C13_steps_keep_images : forall V s, keeps img_of (step_op V s).
+Proof. exact step_keeps. Qed.
+
 (* ---------------------------------------------------------------- pipelines *)
 
-(* PARTIAL (see header): every pipeline, of any length and in any order, made of the modelled steps
-   is local; cone and margin are computed by [pipe_rad] (rows: summed window / filter radii; columns:
-   those plus the disparity span, once for the matching cost, once more for cross-checking) *)
-Theorem C13_pipeline_local_partial : forall V steps, env_wf V -> Forall step_wf steps ->
+(* MAIN.  Every pipeline, of any length and in any order, made of the step kinds of the property (matching cost
+   sad / ssd / census / zncc, cbca, winner-takes-all, refinement, median or bilateral filter, cross-checking) is
+   local: the state of a pixel after the pipeline (cost curves, disparities, validity flags, left and right) is a
+   function of the data of its cone [fst (pipe_rad G steps)] -- rows: summed window / arm / filter radii; columns:
+   those plus the disparity span, once for the matching cost / cbca and once more for cross-checking -- for any
+   two rasters of any sizes and any two positions whose margins [snd (pipe_rad G steps)] lie inside *)
+Theorem C13_pipeline_local : forall V steps, env_wf V -> Forall (step_wf (e_cfg V)) steps ->
   local (pipe_side V steps) (run_pipe (map (step_op V) steps))
         (fst (pipe_rad (e_cfg V) steps)) (snd (pipe_rad (e_cfg V) steps)).
 Proof. exact pipe_local. Qed.
 
-(* the full statement the partial theorem stands for: the same for pipelines that may also contain
-   census / zncc matching costs and cbca aggregation *)
-Definition C13_pipeline_local_full : Prop :=
-  forall (kop : env -> kstep -> op pix pix) (kside : env -> list kstep -> side pix) V ks,
-    env_wf V ->
-    local (kside V ks) (run_pipe (map (kop V) ks)) (fst (kpipe_rad (e_cfg V) ks)) (snd (kpipe_rad (e_cfg V) ks)).
-(* missing: models-as-ops of census / zncc (their SPEC is local: C13_cost_local), of cbca (C11 gives
-   region = arms; arms read at most cbca_distance pixels of the 3x3-median-filtered images); [kop] would
-   be instantiated by them. *)
+(* the finer statement behind it: same STATES on the summed state cones, same IMAGES on the image cone *)
+Theorem C13_pipeline_local2 : forall V steps, env_wf V -> Forall (step_wf (e_cfg V)) steps ->
+  local2 img_of (pipe_side V steps) (run_pipe (map (step_op V) steps))
+    (r3_S (pipe_rad3 (e_cfg V) steps)) (r3_I (pipe_rad3 (e_cfg V) steps)) (r3_M (pipe_rad3 (e_cfg V) steps)).
+Proof. exact pipe_local2. Qed.
 
 (* tiles: the pipeline run on ANY crop containing the cone equals the run on the whole raster *)
-Theorem C13_pipeline_crop_partial : forall V steps (F : frame pix) r0 c0 h w r c,
-  env_wf V -> Forall step_wf steps -> crop_ok F r0 c0 h w ->
+Theorem C13_pipeline_crop : forall V steps (F : frame pix) r0 c0 h w r c,
+  env_wf V -> Forall (step_wf (e_cfg V)) steps -> crop_ok F r0 c0 h w ->
   cone_in (crop F r0 c0 h w) (snd (pipe_rad (e_cfg V) steps)) r c ->
   pipe_side V steps (crop F r0 c0 h w) r c ->
   run_pipe (map (step_op V) steps) (crop F r0 c0 h w) r c = run_pipe (map (step_op V) steps) F (r + r0) (c + c0).
@@ -195,7 +321,8 @@ Proof.
   exact (crop_invariance _ _ _ _ _ _ F r0 c0 h w r c (pipe_local V steps HV Hs) Hok Hc Hside).
 Qed.
 
-(* the radii the harness uses (all step kinds) are those of the theorem on the modelled kinds *)
+(* the radii the harness uses (extracted [kpipe_rad] on the step KINDS) are those of the theorem; for a pipeline
+   that starts with the matching cost the cone is the image cone: the state cone lies inside it *)
 Theorem C13_radii_agree : forall G steps, pipe_rad G steps = kpipe_rad G (map forget steps).
 Proof. exact pipe_rad_forget. Qed.
 
@@ -208,18 +335,26 @@ Definition ex_env : env :=
          (Refine.mkK RefineConsts.msk_invalid RefineConsts.msk_stopped) Constants.msk_pixel_invalid
          Constants.wta_argmin_block Constants.median_block Constants.bilateral_block ex_cfg.
 Definition ex_steps : list step :=
-  [SMc false; SWta false None; SRefine Refine.Vfit Refine.MMin; SMedian 3; SXcheck 1%Q].
+  [SMc MSad; SWta false None; SRefine Refine.Vfit Refine.MMin; SMedian 3; SXcheck 1%Q].
+Definition ex_steps_cbca : list step :=
+  [SMc MCensus; SCbca 3 (5 # 1); SWta false None; SMedian 5; SXcheck 1%Q].
 
 (* window 3, d in [-2, 1], median 3, cross-checking: cone = 2 rows, 1 + 2 + 1 + 2 = 6 columns each side;
+   with cbca_distance 3 (arms of at most 2 pixels) and median 5: rows 1 + 2 + 2 = 5, columns 5 + 2 + 2 = 9;
    the hypotheses of the theorems hold; a 9 x 20 crop at offset (3, 7) has interior pixels *)
 Example C13_example_hyps :
-  env_wf ex_env /\ Forall step_wf ex_steps
+  env_wf ex_env /\ Forall (step_wf ex_cfg) ex_steps /\ Forall (step_wf ex_cfg) ex_steps_cbca
   /\ pipe_rad ex_cfg ex_steps = (mkRad 2 6 6, mkRad 2 6 6)
-  /\ kpipe_rad ex_cfg [KMc; KCbca 3; KPoint; KFilter 5; KXcheck] = (mkRad 7 11 11, mkRad 7 11 11)
+  /\ pipe_rad ex_cfg ex_steps_cbca = (mkRad 5 9 9, mkRad 5 9 9)
+  /\ pipe_rad3 ex_cfg ex_steps_cbca = (mkRad 4 6 6, mkRad 5 9 9, mkRad 5 9 9)
+  /\ kpipe_rad ex_cfg [KMc; KCbca 1; KPoint] = (mkRad 2 4 4, mkRad 2 4 4)
   /\ cone_in (crop (mkFrame 30 40 (fun _ _ => mkPix 0 0 0 0 [] [] None None 0 0)) 3 7 9 20) (mkRad 2 6 6) 4 9.
 Proof.
   split. { unfold env_wf, cfg_wf. cbn. repeat split; try reflexivity; discriminate. }
   split. { repeat constructor; cbn; discriminate. }
+  split. { repeat constructor; cbn; discriminate. }
+  split. { vm_compute. reflexivity. }
+  split. { vm_compute. reflexivity. }
   split. { vm_compute. reflexivity. }
   split. { vm_compute. reflexivity. }
   unfold cone_in, crop. cbn. repeat split; try reflexivity; discriminate.
@@ -235,7 +370,7 @@ Definition ex2_env : env :=
 Definition ex2_F : frame pix :=
   mkFrame 3 8 (fun r c => mkPix ((r * 7 + c * c * 3) mod 11) (((r * 7 + (c + 1) * (c + 1) * 3) mod 11) + r mod 2)
                                 0 0 [] [] None None 0 0).
-Definition ex2_steps : list step := [SMc false; SWta false None; SXcheck 0%Q].
+Definition ex2_steps : list step := [SMc MSad; SWta false None; SXcheck 0%Q].
 Example C13_example_run :
   pipe_rad ex2_cfg ex2_steps = (mkRad 0 2 2, mkRad 0 2 2)
   /\ (let p := run_pipe (map (step_op ex2_env) ex2_steps) (crop ex2_F 1 2 1 6) 0 2 in
@@ -243,20 +378,49 @@ Example C13_example_run :
       (p_dL p, p_fL p, p_dR p, p_fR p) = (p_dL q, p_fL q, p_dR q, p_fR q) /\ p_dL q <> None).
 Proof. vm_compute. split; [reflexivity|]. split; [reflexivity|discriminate]. Qed.
 
+(* the model, run with cbca: a 6 x 10 pair with given cost curves (3 disparities, d in [-1, 1]), cbca_distance 2 then
+   winner-takes-all; cone 2 rows, 3 columns; the 5 x 7 crop at offset (1, 2) gives at its pixel (2, 3) what the
+   whole gives at (3, 5): aggregated cost curves (means over 9-pixel regions: 25/9, 17/9, 8/3) and disparities of
+   the left and right products *)
+Definition ex3_F : frame pix :=
+  mkFrame 6 10 (fun r c => mkPix ((r * 7 + c * c * 3) mod 11) (((r * 5 + (c + 1) * (c + 1) * 3) mod 11) + r mod 2) 0 0
+     [Some (inject_Z ((r * 3 + c * c) mod 7)); Some (inject_Z ((r + 2 * c) mod 5)); Some (inject_Z ((r * r + c) mod 6))]
+     [Some (inject_Z ((r + c * c) mod 5)); Some (inject_Z ((r + 3 * c) mod 7)); Some (inject_Z ((r * r + 2 * c) mod 6))]
+     None None 0 0).
+Definition ex3_steps : list step := [SCbca 2 (4 # 1); SWta false None].
+Example C13_example_run_cbca :
+  pipe_rad ex2_cfg ex3_steps = (mkRad 2 3 3, mkRad 2 3 3)
+  /\ (let p := run_pipe (map (step_op ex2_env) ex3_steps) (crop ex3_F 1 2 5 7) 2 3 in
+      let q := run_pipe (map (step_op ex2_env) ex3_steps) ex3_F 3 5 in
+      (p_cvL p, p_cvR p, p_dL p, p_dR p) = (p_cvL q, p_cvR q, p_dL q, p_dR q)
+      /\ p_cvL q = [Some (25 # 9); Some (17 # 9); Some (8 # 3)]%Q /\ p_dL q = Some 0%Q /\ p_dR q = Some 1%Q).
+Proof. vm_compute. split; [reflexivity|]. repeat split; reflexivity. Qed.
+
 Print Assumptions C13_local_compose.
 Print Assumptions C13_local_pointwise.
-Print Assumptions C13_pipeline_local.
+Print Assumptions C13_chain_local.
+Print Assumptions C13_local2_compose.
+Print Assumptions C13_chain2_local.
+Print Assumptions C13_local2_one_cone.
 Print Assumptions C13_crop_invariance.
 Print Assumptions C13_cost_local.
 Print Assumptions C13_sad_model_local.
 Print Assumptions C13_ssd_model_local.
+Print Assumptions C13_census_model_local.
+Print Assumptions C13_zncc_model_local.
 Print Assumptions C13_criteria_local_interior.
+Print Assumptions C13_cbca_arm_reach.
+Print Assumptions C13_cbca_spec_local.
+Print Assumptions C13_cbca_model_local.
 Print Assumptions C13_mc_step_local.
+Print Assumptions C13_cbca_step_local.
 Print Assumptions C13_wta_step_local.
 Print Assumptions C13_refine_step_local.
 Print Assumptions C13_median_step_local.
 Print Assumptions C13_bilateral_step_local.
 Print Assumptions C13_xcheck_step_local.
-Print Assumptions C13_pipeline_local_partial.
-Print Assumptions C13_pipeline_crop_partial.
+Print Assumptions C13_steps_keep_images.
+Print Assumptions C13_pipeline_local.
+Print Assumptions C13_pipeline_local2.
+Print Assumptions C13_pipeline_crop.
 Print Assumptions C13_radii_agree.
